@@ -23,12 +23,12 @@ pub mod stdx {
   pub use ::std::*;
   pub mod sync {
     pub use super::super::{
-      Condvar, Mutex, MutexGuard, RwLock, RwLockReadGuard, RwLockWriteGuard,
+      Condvar, Mutex, MutexGuard, RwLock, RwLockReadGuard, RwLockWriteGuard, WaitTimeoutResult,
     };
     pub use ::std::sync::*;
   }
   pub mod thread {
-    pub use super::super::{sleep, spawn, JoinHandle};
+    pub use super::super::{sleep, spawn, yield_now, Builder, JoinHandle};
     pub use ::std::thread::*;
   }
   pub mod collections {
@@ -279,6 +279,39 @@ impl Condvar {
     }
     Ok(guard)
   }
+  /// timed waits use the virtual clock: the wait ends when notified or when the clock reaches the deadline
+  #[track_caller]
+  pub fn wait_timeout<'a, T>(
+    &self,
+    guard: MutexGuard<'a, T>,
+    dur: Duration,
+  ) -> LockResult<(MutexGuard<'a, T>, WaitTimeoutResult)> {
+    let timed_out = rt::cv_wait_timeout(self.id, guard.lock.id, dur.as_nanos() as u64, Location::caller());
+    Ok((guard, WaitTimeoutResult(timed_out)))
+  }
+  #[track_caller]
+  pub fn wait_timeout_while<'a, T, F>(
+    &self,
+    mut guard: MutexGuard<'a, T>,
+    dur: Duration,
+    mut condition: F,
+  ) -> LockResult<(MutexGuard<'a, T>, WaitTimeoutResult)>
+  where
+    F: FnMut(&mut T) -> bool,
+  {
+    let site = Location::caller();
+    let deadline = rt::now() + dur.as_nanos() as u64;
+    loop {
+      if !condition(&mut *guard) {
+        return Ok((guard, WaitTimeoutResult(false)));
+      }
+      let now = rt::now();
+      if now >= deadline {
+        return Ok((guard, WaitTimeoutResult(true)));
+      }
+      rt::cv_wait_timeout(self.id, guard.lock.id, deadline - now, site);
+    }
+  }
   #[track_caller]
   pub fn notify_one(&self) {
     rt::cv_notify(self.id, false, Location::caller());
@@ -289,9 +322,44 @@ impl Condvar {
   }
 }
 
+#[derive(Clone, Copy, Debug, PartialEq, Eq)]
+pub struct WaitTimeoutResult(bool);
+impl WaitTimeoutResult {
+  pub fn timed_out(&self) -> bool {
+    self.0
+  }
+}
+
 // ---------------------------------------------------------------------------
 // threads
 // ---------------------------------------------------------------------------
+
+/// `thread::Builder`: name and stack size are accepted and ignored, the thread is a task of the runtime
+#[derive(Default)]
+pub struct Builder;
+impl Builder {
+  pub fn new() -> Builder {
+    Builder
+  }
+  pub fn name(self, _name: String) -> Builder {
+    self
+  }
+  pub fn stack_size(self, _size: usize) -> Builder {
+    self
+  }
+  #[track_caller]
+  pub fn spawn<F, T>(self, f: F) -> ::std::io::Result<JoinHandle<T>>
+  where
+    F: FnOnce() -> T + Send + 'static,
+    T: Send + 'static,
+  {
+    Ok(spawn(f))
+  }
+}
+
+pub fn yield_now() {
+  rt::yield_now();
+}
 
 pub struct JoinHandle<T> {
   task: usize,
@@ -451,7 +519,7 @@ pub mod rt {
     Begin,
     Acquire { obj: ObjId, write: bool },
     /// waiting on cv; `notified` set by notify
-    CvWait { cv: ObjId, mutex: ObjId, notified: Option<usize> },
+    CvWait { cv: ObjId, mutex: ObjId, notified: Option<usize>, until: Option<u64> },
     Join { target: usize },
     Sleep { until: u64 },
   }
@@ -605,8 +673,8 @@ pub mod rt {
         let l = g.locks.get(obj).cloned().unwrap_or_default();
         can_grant(&l, t, *write)
       }
-      Pending::CvWait { mutex, notified, .. } => {
-        notified.is_some() && {
+      Pending::CvWait { mutex, notified, until, .. } => {
+        (notified.is_some() || until.map_or(false, |u| g.clock >= u)) && {
           let l = g.locks.get(mutex).cloned().unwrap_or_default();
           can_grant(&l, t, true)
         }
@@ -628,8 +696,8 @@ pub mod rt {
           l.readers
         )
       }
-      Pending::CvWait { cv, notified, .. } => {
-        format!("condvar {:x} notified={:?}", cv, notified)
+      Pending::CvWait { cv, notified, until, .. } => {
+        format!("condvar {:x} notified={:?} until={:?}", cv, notified, until)
       }
       Pending::Join { target } => format!("join task {}", target),
       Pending::Sleep { until } => format!("sleep until {}", until),
@@ -667,6 +735,7 @@ pub mod rt {
           .filter(|t| !t.finished)
           .filter_map(|t| match t.pending {
             Pending::Sleep { until } => Some(until),
+            Pending::CvWait { until: Some(u), notified: None, .. } => Some(u),
             _ => None,
           })
           .min();
@@ -955,7 +1024,7 @@ pub mod rt {
       l.writer = None;
     }
     log(&mut g, me, Ev::WaitBegin { cv, mutex }, &s);
-    g.tasks[me].pending = Pending::CvWait { cv, mutex, notified: None };
+    g.tasks[me].pending = Pending::CvWait { cv, mutex, notified: None, until: None };
     g = reschedule(g, me, false);
     g = check_abort(g);
     if g.abort.is_some() {
@@ -971,6 +1040,42 @@ pub mod rt {
     l.ver += 1;
     let ver = l.ver;
     log(&mut g, me, Ev::WaitEnd { cv, mutex, by, ver }, &s);
+  }
+
+  /// timed wait; returns true when it ended by the deadline and not by a notification
+  pub fn cv_wait_timeout(cv: ObjId, mutex: ObjId, nanos: u64, site: Site) -> bool {
+    let me = current_task();
+    if me == usize::MAX {
+      panic!("condvar wait outside an execution");
+    }
+    let mut g = lock_state();
+    if g.abort.is_some() && ::std::thread::panicking() {
+      return true;
+    }
+    let s = site_str(site);
+    g.tasks[me].site = s.clone();
+    if let Some(l) = g.locks.get_mut(&mutex) {
+      l.writer = None;
+    }
+    log(&mut g, me, Ev::WaitBegin { cv, mutex }, &s);
+    let until = g.clock + nanos.max(1);
+    g.tasks[me].pending = Pending::CvWait { cv, mutex, notified: None, until: Some(until) };
+    g = reschedule(g, me, false);
+    g = check_abort(g);
+    if g.abort.is_some() {
+      return true;
+    }
+    let by = match g.tasks[me].pending {
+      Pending::CvWait { notified: Some(by), .. } => Some(by),
+      _ => None,
+    };
+    g.tasks[me].pending = Pending::None;
+    let l = g.locks.entry(mutex).or_default();
+    l.writer = Some(me);
+    l.ver += 1;
+    let ver = l.ver;
+    log(&mut g, me, Ev::WaitEnd { cv, mutex, by: by.unwrap_or(usize::MAX), ver }, &s);
+    by.is_none()
   }
 
   pub fn cv_notify(cv: ObjId, all: bool, site: Site) {
